@@ -211,16 +211,29 @@ def A_ser(b, cfg, mode, workers=8):
     return lambda: toy_replay(b, "ser", "MC_Ser", cfg, mode, workers=workers)
 SER_CURVES_Q = ["sw13_0_2", "sw13_1_0", "te13_1_7", "sw61_0_2", "te61_1_7", "sw127_1_1", "te127_1_5", "sw251_0_2", "te251_1_2", "sw_f7_2_a0"]
 
+def B_ser(b, cfg, seed, n, timeout=1500):
+    if cfg.startswith("c_"): b = b.replace("vh-core", "vh-curves")
+    return lambda: trace_validate(b, "curve", "Trace_Ser", cfg, seed, n, timeout=timeout, rec_args=["--profile", "ser"], label="B:ser:%s:seed%d:n%d" % (cfg, seed, n))
+# full-size serialization: the library's format on curves of every shape (spare bits 0..7 in the top byte, flags in an extra byte, extension base fields,
+# both models) and the ZCash format of curves/bls12_381
+SER_BIG_Q = ["bls12_381_g1", "bls12_381_g2", "ed_on_bls12_381", "secp256k1", "mnt4_753_g1", "bn384_g1",
+             "c_bls12_381_g1", "c_bls12_381_g2", "c_bn254_g1", "c_bn254_g2", "c_secp256r1", "c_secp384r1", "c_bls12_377_g2", "c_mnt6_298_g2", "c_bw6_761_g1", "c_ed25519", "c_curve25519",
+             "c_ed_on_bls12_381_bandersnatch_te", "c_pallas", "c_mnt4_298_g2"]
 def plan_C09(b, tier, seed):
     cs = SER_CURVES_Q if tier == "quick" else SER_CURVES_Q + ["sw19_0_8", "sw23_1_16", "sw31_1_29", "te29_1_2", "te13_2_4", "sw_f7_2_a1", "sw_f7_3_a0", "sw17_1_3"]
     t = []
     for c in cs:
         t += [A_ser(b, c, "field"), A_ser(b, c, "point")]
+    if tier == "quick": t += [B_ser(b, c, seed, 160) for c in SER_BIG_Q]
+    else: t += [B_ser(b, c, seed + k, 1200, 3000) for c in BIG_CURVES + CURVE_CRATE_CURVES for k in range(2)]
     return t
 def plan_C10(b, tier, seed):
     cs = ["sw13_1_0", "sw13_1_4", "sw19_0_8", "te13_1_7", "te13_2_4", "sw251_0_2", "te251_1_2", "sw127_1_1", "te127_1_5", "sw_f7_2_a0"]
     if tier != "quick": cs += ["sw13_0_4", "sw23_1_16", "sw31_1_29", "te29_1_2", "te29_2_3", "sw61_0_2", "te61_1_7", "sw_f7_2_a1"]
-    return [A_ser(b, c, "point") for c in cs] + [A_ser(b, c, "field") for c in cs[:4]]
+    t = [A_ser(b, c, "point") for c in cs] + [A_ser(b, c, "field") for c in cs[:4]]
+    if tier == "quick": t += [B_ser(b, c, seed + 50, 160) for c in SER_BIG_Q]
+    else: t += [B_ser(b, c, seed + 50 + k, 1200, 3000) for c in BIG_CURVES + CURVE_CRATE_CURVES for k in range(2)]
+    return t
 
 def A_msm(b, cfg, mode, length, workers=6):
     return lambda: toy_replay(b, "msm", "MC_Msm", cfg, mode, workers=workers, env_extra={"LEN": str(length)}, emits_all=False,
@@ -323,8 +336,8 @@ RULES = {
  "C18": "A: a zoo of 44 composite types (all integer widths and signs, usize, bool, Option, Vec / VecDeque / LinkedList incl. nested, tuples, arrays, String, BigUint, BTreeSet, BTreeMap, Rc / Arc / Cow, the four derive shapes named / tuple / nested-tuple / generic, and the mode-pinning wrappers around the only mode-dependent leaf - points of a toy curve - alone, inside Vec and inside tuples): every value built from tiny leaf domains up to length 2 x both ambient modes: bytes, advertised size, exact-size buffer; a structured set of ~4700 byte strings per type (every payload of <= 3 bytes over an alphabet with ASCII, valid 2-byte UTF-8, lone continuation byte, 0xFF; behind every length prefix in {0..4, 2^16, 2^40, 2^62, 2^64-1}): error vs value, decoded value, bytes consumed; panics and aborts are violations",
  "C17": "A: MleMachine over toy fields: ALL tables for 0..3 variables over F_3 (6561 tables), 0..2 over F_5, 0..1 over F_7; all ordered pairs of tables x add/sub/scaled add/eq/concat; every table x evaluation at EVERY point of F_p^n, fix_variables for every partial assignment of every length, every relabel window (also those touching the last variable), neg, scaling by {0,1,2,-1}, index, to_evaluations; every operation in the dense AND the sparse form; multivariate sparse polynomials: every term list of <= 2 terms over 2 variables (duplicate monomials, zero coefficients, unordered variables) x every point for evaluate / neg and selected points for add / sub",
  "C05": "A: MsmMachine over Z_r explored by TLC with the conservation invariant (result + buffered = everything added) on every state; EVERY history New(kind, cap); Add^n; Finalize with n <= LEN over bases {O, G, 2G, -G} (repeated and identity bases) x scalars {0, 1, r-1} x every capacity 0..LEN+1 x {Chunked, HashMap} is replayed on the real accumulators over toy curves; every pair of base/scalar vectors of length <= 3 (mismatched lengths included) and patterned vectors of length 31, 32, 33, 100 through msm (checked), msm_unchecked, msm_bigint, msm_chunks and - through the verification hook - both private bucket methods (the plain one is otherwise unreachable); B: full-size MSMs of 0..1025 terms on BLS12-381 G1/G2, secp256k1, MNT4-753 G1, BN384, Jubjub through all six entry points, validated by TLC as (sum k_i a_i) P",
- "C09": "A: for toy curves over fields with 4, 6, 7 and 8-bit moduli (so 4, 2, 1, 0 spare bits in the top byte; 2-bit and 1-bit flags that fit exactly or spill into an extra byte) and over F_{7^2}: every field element x every flag kind x every flag value: bytes and advertised size; EVERY byte string of the encoded length, one shorter and one longer (<= 2 bytes): decoding outcome, decoded value, flag and bytes consumed (TLC proves Decode.Encode = id and, for field elements, Encode.Decode = id on the specification); every curve point x compressed/uncompressed through affine and rescaled projective serializers and an exact-size buffer",
- "C10": "A: EVERY byte string of length 0..size (<= 2 bytes) offered as compressed / uncompressed encoding with validation on and off, on toy curves with cofactor 1, 2, 4, 8, 18, 20, 36 (so most decodable points lie outside the subgroup) and x-coordinates without a root: error vs Ok, the decoded point, panics; with validation the returned point must be on the curve and in the prime-order subgroup",
+ "C09": "A: for toy curves over fields with 4, 6, 7 and 8-bit moduli (so 4, 2, 1, 0 spare bits in the top byte; 2-bit and 1-bit flags that fit exactly or spill into an extra byte) and over F_{7^2}: every field element x every flag kind x every flag value: bytes and advertised size; EVERY byte string of the encoded length, one shorter and one longer (<= 2 bytes): decoding outcome, decoded value, flag and bytes consumed (TLC proves Decode.Encode = id and, for field elements, Encode.Decode = id on the specification); every curve point x compressed/uncompressed through affine and rescaled projective serializers and an exact-size buffer; B (Trace_Ser): full-size curves of every shape (0..7 spare bits, flags in a byte of their own for 256- and 384-bit moduli, base fields F_p, F_{p^2}, F_{p^3}, both models) incl. 14 curve crates and the ZCash format of curves/bls12_381 (ZcashCodec.tla): points of all classes (identity, generator multiples, random subgroup points, arbitrary-x points outside the subgroup, coordinates with structure: small, in a subfield, zero components - for a = 0 curves also a chosen y through a cube root) through four serializer entry points, field elements with every flag kind, and decoding of real encodings under 13 mutations (each flag bit, bit flips, truncation, extension, non-reduced coordinate, x+1, y+1, canonical / non-canonical infinity, random, all-ones) with and without validation",
+ "C10": "A: EVERY byte string of length 0..size (<= 2 bytes) offered as compressed / uncompressed encoding with validation on and off, on toy curves with cofactor 1, 2, 4, 8, 18, 20, 36 (so most decodable points lie outside the subgroup) and x-coordinates without a root: error vs Ok, the decoded point, panics; with validation the returned point must be on the curve and in the prime-order subgroup; B (Trace_Ser): the same decision at full size on 20 shipped curves incl. the ZCash-format override of curves/bls12_381: crafted and mutated encodings (off-curve uncompressed coordinates, points outside the subgroup, non-canonical infinity, stray bits) with and without validation; a rejection must come with a witness that the bytes denote an invalid point",
  "C11": "A: EVERY element of toy fields (p = 3 mod 4: 7,11,31; two-adicity 2..8: 13,17,97,193,257; F_{p^2}, F_{p^3} with configured constants, F_{p^4}, F_{p^6} = 2 over 3) through sqrt / sqrt_in_place (relation: a root is returned exactly for squares and squares back), legendre (Euler criterion by norm descent, checked by TLC against the existence of a root); exhaustive traces over F_12289 and F_40961 (two-adicity 12, 13); B: shipped fields and the zoo (two-adicity up to 47; Goldilocks 32) with squares, non-squares and boundary values",
  "C19": "A: eq / cmp / hash-consistency / is_zero / is_one on all pairs of toy field and tower elements, of boundary big integers, of curve points in ALL pairs of projective representatives (equality and hashing must not depend on the representative; affine vs projective), of polynomials in dense and sparse form; B: the same queries inside full-size traces where equal values arise along different operation sequences",
  "C08": "A: PolyMachine over toy prime fields: all ordered pairs of polynomials of degree < DEG x add/sub/mul/div/scaled add/eq in every dense/sparse mix and API variant (operators by value/reference, assign forms, naive and FFT products, the four divide_with_q_and_r mixes); every polynomial x scaling, evaluation, canonical-form conversions, vanishing-polynomial mul/div and evaluate_over_domain / interpolate over every small domain and coset (radix-2, mixed-radix, general), including polynomials longer than the domain; patterned polynomials of 15..130 coefficients (thorough 1030) x evaluation, linear operations, products and quotients with small and large operands. Results are compared as STORED coefficient vectors, so non-canonical results are visible. non-trivial = register changed or a non-zero value returned",
@@ -358,7 +371,7 @@ def _dense_scale_zero(mm, params):
             and isinstance(e.get("d"), int) and 1 <= e["d"] <= len(pre) and (pre[e["d"] - 1] or {}).get("n", 0) > 0
             and (mm.get("got_post") or [None] * len(pre))[e["d"] - 1] == {"n": 0, "t": [0]})
 PREDICATES = {"dense_mle_scale_zero": _dense_scale_zero, "h2f_zpad_block_size": _zpad, "glv_mul_outside_subgroup": _glv_outside, "mnt_pairing_identity": _mnt_identity}
-NEEDS_CURVES = {"C06", "C16", "C02", "C12", "C04", "C13"}
+NEEDS_CURVES = {"C06", "C16", "C02", "C12", "C04", "C13", "C09", "C10"}
 HOOK_COMMITS = ["b2d3621", "63ec7b9", "7c991e8"]
 NOT_APPLICABLE = {}
 META = {
@@ -378,7 +391,7 @@ META = {
  "C05": {"text": "The accumulators are modelled as state machines with the flush rule of the code and a history variable; TLC checks conservation and 'finalize returns the history' in every reachable state and every complete behaviour is replayed on ChunkedPippenger / HashMapPippenger of real toy curves (short Weierstrass, twisted Edwards, base field F_{p^2}). One-shot MSMs are defined as sum k_i d_i in Z_r and compared with the group element (sum) * G. Full size: CurveMachine.MsmLin - bases are the multiples 0..15 of a register, so an MSM of any length costs the specification one scalar multiplication - validates traces of msm / msm_unchecked / msm_bigint / msm_chunks and both bucket methods on shipped curves for lengths 0..1025 (every window size from 3 up) with boundary scalars (0, 1, r-1, 2^j, 2^j - 1, all maximal).",
          "note": "Bases are multiples of one point with known small logarithms. Scalars are canonical field elements (msm_bigint documents that precondition)."},
  "C09": {"text": "Codec defines the encodings as total functions between values and byte sequences (size formula, flag placement, sign conventions from the field's order); TLC checks the round-trip and uniqueness theorems on the specification and emits the expected outcome for every value and every byte string of toy configurations; the harness requires the real serializers (all entry points, affine and projective, exact-size buffers) to produce exactly those bytes, sizes, values, flags and consumed lengths.",
-         "note": "Exhaustive over byte strings up to 2 bytes (toy moduli up to 8 bits; F_{7^2}); full-size fields and the ZCash-format override of curves/bls12_381 are covered by trace validation when vh-curves is built (see DESIGN)."},
+         "note": "Exhaustive over byte strings up to 2 bytes (toy moduli up to 8 bits; F_{7^2}); full-size curves (library format and the ZCash-format override of curves/bls12_381, specified in ZcashCodec.tla) are covered by trace validation with structured points and mutated encodings."},
  "C10": {"text": "Deserialize is specified as a total function: error, or the point the bytes denote, and with validation only points of the prime-order subgroup (defined as r.P = O on the specification's own group law). TLC enumerates every byte string and predicts the outcome; panics or reading past the advertised size are violations.",
          "note": "Same toy scope as C09; cofactors up to 36."},
  "C11": {"text": "FieldMachine.Sqrt is a relation (some root iff square, root^2 = x, sqrt(0) = 0) and Legendre is Euler's criterion evaluated by norm descent; TLC proves on every toy field that both agree with the existence of a root, explores every element, and the harness replays sqrt, sqrt_in_place and legendre on the real algorithms (p = 3 mod 4 shortcut, Tonelli-Shanks for every two-adicity up to 13 exhaustively, quadratic-extension and cubic-extension algorithms). Full-size traces cover shipped fields.",
